@@ -129,3 +129,46 @@ def neighbour_cases():
               '[1 + 2, x][0]', '-(1 + 2) + x', 'x[1 + 2]', 'x ** (2 * 3)', '(x := 1 + 2)', '1 + len("ab")', '2 * 3 + __import__("os").getpid() * 0']:
         yield {'shape': 'neighbour', 'expr': e, 'ctx': 'neighbour', 'closed': False, 'evaluate': False,
                'src': 'def V(x=5, f=abs):\n    return %s\n' % e}
+
+
+# the folded node must land in the scope its expression is evaluated in: header positions of a function belong to the *enclosing* scope. A folded
+# True / False is a hoisting candidate; with the same constant used often inside the function the hoisted assignment is placed by that scope.
+_L6 = '{L}, {L}, {L}, {L}, {L}, {L}'
+INTERPLAY_CONTEXTS = [
+    ('hdr_default', 'def V(p={E}):\n    return [p, ' + _L6 + ']\n'),
+    ('hdr_kwdefault', 'def V(*, k={E}):\n    return [k, ' + _L6 + ']\n'),
+    ('hdr_decorator', 'def dec(v):\n    def w(f):\n        return lambda: [v, f()]\n    return w\n@dec({E})\ndef V():\n    return [' + _L6 + ']\n'),
+    ('hdr_annotation', 'def V(p: {E} = 0) -> {E}:\n    return [p, ' + _L6 + ']\n'),
+    ('hdr_nested_default', 'def V():\n    def inner(q={E}):\n        return [q, ' + _L6 + ']\n    return inner()\n'),
+    ('hdr_nested_decorator', 'def V():\n    def dec(v):\n        return lambda f: (lambda: [v, f()])\n    @dec({E})\n    def inner():\n        return [' + _L6 + ']\n    return inner()\n'),
+    ('hdr_lambda_default', 'V = lambda p={E}: [p, ' + _L6 + ']\n'),
+    ('hdr_class_keyword', 'class M(type):\n    def __new__(c, n, b, d, **k):\n        return type.__new__(c, n, b, d)\n    def __init__(c, n, b, d, **k):\n        c.flag = k\n'
+                          'def V():\n    class K(metaclass=M, flag={E}):\n        a = [' + _L6 + ']\n    return K.a, K.flag\n'),
+    ('hdr_class_base_in_fn', 'def pick(v):\n    return object\ndef V():\n    class K(pick({E})):\n        def m(self):\n            return [' + _L6 + ']\n    return K().m()\n'),
+    ('hdr_method_default', 'class K:\n    def m(self, p={E}):\n        return [p, ' + _L6 + ']\nV = K().m\n'),
+    ('hdr_async_default', 'async def co(p={E}):\n    return [p, ' + _L6 + ']\ndef V():\n    c = co()\n    try:\n        c.send(None)\n    except StopIteration as e:\n        return e.value\n'),
+    ('body_many', 'def V():\n    return [{E}, ' + _L6 + ']\n'),
+    ('comp_iter_in_fn', 'def V():\n    return [[x, ' + _L6 + '] for x in [{E}]]\n'),
+    ('module_many', 'V = [{E}, ' + _L6 + ']\n'),
+]
+_BOOL = ['True', 'False']
+
+
+def interplay_cases():
+    """bool-valued folds (the only folded values that are hoisting candidates) x header / body positions, constant repeated in the function"""
+    exprs = []
+    for a in _BOOL:
+        for b in _BOOL:
+            for op in ('|', '&', '^'):
+                exprs.append('%s %s %s' % (a, op, b))
+    exprs += ['(True | False) & True', 'True ^ (False | False)', 'False | False | True']
+    for e in exprs:
+        try:
+            v = eval(e, {}, {})
+        except Exception:
+            continue
+        if not isinstance(v, bool):
+            continue
+        for tag, ctx in INTERPLAY_CONTEXTS:
+            yield {'shape': 'interplay.' + tag, 'expr': e, 'ctx': tag, 'closed': False, 'interplay': True,
+                   'src': ctx.replace('{E}', e).replace('{L}', repr(v))}
